@@ -643,8 +643,15 @@ def count_cases(ctx: Ctx, traces: list[dict]) -> None:
             i = j
 
 
+# JVM tuning only (no effect on what TLC computes): few GC threads per process - many TLC processes run side by side -, and for
+# the short single-worker trace validations the C1 compiler only (their CPU time is otherwise dominated by C2 compilation)
+JVM_MC = "-XX:ParallelGCThreads=2"
+JVM_TRACE = "-XX:TieredStopAtLevel=1 -XX:ParallelGCThreads=2"
+
+
 def tlc_job(module: str, cfg: str, workdir, **kw):
     """run_tlc, repeated once when the JVM was killed from outside (exit -9: the kernel's OOM killer on a shared machine)."""
+    kw["env"] = {"JDK_JAVA_OPTIONS": JVM_TRACE if module.startswith("Trace") else JVM_MC, **(kw.get("env") or {})}
     try:
         return run_tlc(module, cfg, workdir, **kw)
     except MachineryError as ex:
@@ -801,10 +808,10 @@ def run(ctx: Ctx) -> None:
             mc("LBSpec N=2, valid cuts, user cache (first / all functions flagged)", "b2c", 4, modes='{"call"}', ucache="TRUE",
                n=2, rich="FALSE", maxev=2, allkw="FALSE", maxh=1)
             # fault plans (FaultChoice: each function raising once / always, all raising once): evaluate() calls that raise
-            # followed by further ones; quick: one eighth of the description universe (DescHash, the part rotates with the
-            # seed), pipeline() convention; thorough: all of it
+            # followed by further ones; quick: one part in eight of the description universe (DescHash = 5 mod 8: a function of
+            # two parameters followed by one of one parameter, 36 descriptions x 6 plans), pipeline() convention; thorough: all
             mc("LBSpec N=2, valid cuts, fault plans, up to 2 evaluate() calls that raise per handle", "b2f", 2, heap="2g",
-               nshards=8, shards=[ctx.seed % 8], modes='{"call"}', faults="TRUE", maxfail=2, n=2, rich="FALSE", maxev=2,
+               nshards=8, shards=[5], modes='{"call"}', faults="TRUE", maxfail=2, n=2, rich="FALSE", maxev=2,
                allkw="FALSE", maxh=1)
             mc("EBSpec N=2, valid cuts, fault plans: the eager twin", "e2f", 1, heap="1g", nshards=4, shards=[ctx.seed % 4],
                modes='{"call"}', faults="TRUE", maxfail=2, spec="EBSpec", n=2, rich="FALSE", maxev=2, allkw="FALSE", maxh=1)
